@@ -84,8 +84,13 @@ def table(prop, lentil, rng):
     if prop in ('C07', 'C08', 'C03', 'C17'):
         add('Plane(amplitude, opd, mask, pixelscale)', lambda: (float(lentil.Plane().amplitude), float(lentil.Plane().opd), lentil.Plane().pixelscale, str(lentil.Plane().ptype)),
             lambda: (1.0, 0.0, None, 'none'))
-        add('Pupil() / Image() defaults', lambda: (float(lentil.Pupil().amplitude), float(lentil.Pupil().opd), lentil.Pupil().focal_length, str(lentil.Pupil().ptype), str(lentil.Image().ptype)),
-            lambda: (1.0, 0.0, None, 'pupil', 'image'))
+        add('Pupil() / Image() defaults', lambda: (float(lentil.Pupil().amplitude), float(lentil.Pupil().opd), lentil.Pupil().focal_length, str(lentil.Pupil().ptype), str(lentil.Image().ptype),
+                                                   float(lentil.Image().amplitude), float(lentil.Image().opd), lentil.Image().pixelscale, lentil.Pupil().pixelscale),
+            lambda: (1.0, 0.0, None, 'pupil', 'image', 1.0, 0.0, None, None))
+        add('a default plane changes nothing', lambda: [complex((lentil.Wavefront(6e-7) * pl).data[0].data) for pl in (lentil.Plane(), lentil.Pupil(focal_length=2.0))]
+            + [complex((lentil.Wavefront(6e-7, focal_length=2.0, ptype=lentil.image) * lentil.Image()).data[0].data)], lambda: [1 + 0j, 1 + 0j, 1 + 0j])
+        tl = lentil.Tilt(x=2e-6, y=-3e-6)
+        add('Tilt.shift(xs, ys)', lambda: tl.shift(z=5.0), lambda: tl.shift(xs=0, ys=0, z=5.0))
     if prop in ('C04', 'C10', 'C03'):
         n = 10
         amp = np.ones((n, n))
